@@ -52,7 +52,7 @@ func (r *simRun) harvest() {
 	defer s.mu.Unlock()
 	for ; r.harvested < len(s.pool); r.harvested++ {
 		m := s.pool[r.harvested]
-		if m.kind != "vote" || m.bid == "" {
+		if m.kind != "vote" || m.bid == "" || m.dropped {
 			continue
 		}
 		msg, err := consensus.UnmarshalMessage(m.pi.Uint16(), m.bs)
@@ -202,6 +202,9 @@ func (r *simRun) precommitsFor(h int64, bid string) map[int32][]*consensus.VoteM
 		out[v.Round] = append(out[v.Round], v)
 	}
 	for _, m := range s.pool {
+		if m.dropped {
+			continue // never left its node (crash point before the send): nobody else can know it
+		}
 		msg, err := consensus.UnmarshalMessage(m.pi.Uint16(), m.bs)
 		if err != nil {
 			continue
@@ -305,7 +308,7 @@ func (r *simRun) learnCorrectParts() {
 	s.mu.Lock()
 	defer s.mu.Unlock()
 	for _, m := range s.pool {
-		if m.kind != "proposal" || m.bid == "" {
+		if m.kind != "proposal" || m.bid == "" || m.dropped {
 			continue
 		}
 		if _, ok := r.byzParts[m.bid]; ok {
@@ -318,7 +321,7 @@ func (r *simRun) learnCorrectParts() {
 		pm := msg.(*consensus.ProposalMessage)
 		ps := consensus.NewPartSetFromID(pm.BlockPartSetID)
 		for _, m2 := range s.pool {
-			if m2.kind != "part" || m2.h != m.h {
+			if m2.kind != "part" || m2.h != m.h || m2.dropped {
 				continue
 			}
 			msg2, err := consensus.UnmarshalMessage(m2.pi.Uint16(), m2.bs)
@@ -499,8 +502,9 @@ func (r *simRun) crashPick(wal string, lo, hi int64, bounds []int64) int64 {
 // let a drawn subset C of L see +2/3 precommits (with Byzantine help) and commit, and push the
 // rest into the next round.
 type splitOpt struct {
-	L, C     []int // forced sets (nil: drawn)
-	noPhase2 bool
+	L, C         []int // forced sets (nil: drawn)
+	noPhase2     bool
+	lastDecision bool // the polka is for the block proposed last (this round's proposal), not a drawn one
 }
 
 func (r *simRun) splitLock() error { return r.splitLockOpt(nil) }
@@ -578,6 +582,9 @@ func (r *simRun) splitLockOpt(opt *splitOpt) error {
 	var target *simDecision
 	if len(ds) > 0 {
 		target = &ds[rapid.IntRange(0, len(ds)-1).Draw(rt, "target")]
+		if opt != nil && opt.lastDecision {
+			target = &ds[len(ds)-1]
+		}
 	}
 	var byzBlockPV, byzNilPV, byzBlockPC []int
 	for _, b := range s.byzantine() {
@@ -887,6 +894,94 @@ func (r *simRun) oldPolka() error {
 	return nil
 }
 
+// relock: scripted adversary for "a restart restores the LATEST lock".
+//  round r   : the victim alone sees the polka for the proposed block B and locks it; nobody commits;
+//  round r+1 : another block C is proposed; the victim (prevoting B) and a committer see the polka for C:
+//              the victim moves its lock to C and precommits it, the committer finalizes C with Byzantine help;
+//  then      : the victim crashes with everything on disk and restarts (drawn: or does not crash at all);
+//  later     : the round-r prevotes for B are delivered to everybody (so that a re-proposal of B with that
+//              proof-of-lock round is acceptable) and the adversary supports whatever is proposed for four rounds.
+// A victim that comes back locked on B re-proposes / prevotes B and finalizes it with the unlocked node.
+func (r *simRun) relock() error {
+	s := r.s
+	rt := r.rt
+	live := r.liveCorrect()
+	if s.f == 0 || len(live) < 3 {
+		r.counts["relock.skip"]++
+		return nil
+	}
+	st0 := s.nodes[live[0]].state()
+	for _, j := range live {
+		st := s.nodes[j].state()
+		if st.Height != st0.Height || st.Round != st0.Round || st.Step > consensus.VerifSimStepPrevote {
+			r.counts["relock.skip"]++
+			return nil
+		}
+	}
+	h, round := st0.Height, st0.Round
+	perm := rapid.Permutation(live).Draw(rt, "relockRoles")
+	victim, committer := perm[0], perm[1]
+	if err := r.splitLockOpt(&splitOpt{L: []int{victim}, C: []int{}, noPhase2: true}); err != nil {
+		return err
+	}
+	if st := s.nodes[victim].state(); st.Height != h || st.LockedRound != round {
+		r.counts["relock.noFirstLock"]++
+		return nil
+	}
+	if err := r.pushToRound(h, round+1, r.liveCorrect()); err != nil {
+		return err
+	}
+	for _, j := range r.liveCorrect() {
+		if st := s.nodes[j].state(); st.Height != h || st.Round != round+1 {
+			r.counts["relock.stuck"]++
+			return nil
+		}
+	}
+	if err := r.splitLockOpt(&splitOpt{L: []int{victim, committer}, C: []int{committer}, noPhase2: true, lastDecision: true}); err != nil {
+		return err
+	}
+	stv := s.nodes[victim].state()
+	if stv.Height != h || stv.LockedRound != round+1 {
+		r.counts["relock.noSecondLock"]++
+		return nil
+	}
+	r.counts["relock.lockedTwice"]++
+	if rapid.IntRange(0, 3).Draw(rt, "relockCrash") != 0 && len(r.liveCorrect()) > 1 {
+		s.crash(victim, func(wal string, lo, hi int64, bounds []int64) int64 { return hi })
+		if err := s.restart(victim); err != nil {
+			return err
+		}
+		r.counts["relock.restarted"]++
+	}
+	oldPV := func(m *simMsg) bool {
+		return m.kind == "vote" && m.h == h && m.r == round && m.vt == consensus.VoteTypePrevote
+	}
+	skip := map[int]bool{committer: true}
+	for k := int32(2); k <= 5; k++ {
+		for _, j := range r.liveCorrect() {
+			if skip[j] || s.nodes[j].state().Height != h {
+				continue
+			}
+			// everything may be delivered again at any time: the round-r prevotes reach everybody once more
+			s.mu.Lock()
+			for key := range s.deliv {
+				if key[1] == j && oldPV(s.pool[key[0]]) {
+					delete(s.deliv, key)
+				}
+			}
+			s.mu.Unlock()
+			if err := s.flushTo(j, oldPV); err != nil {
+				return err
+			}
+		}
+		if err := r.supportRound(h, round+k, skip); err != nil {
+			return err
+		}
+	}
+	s.logf("relock(h%d r%d victim=%d committer=%d)", h, round, victim, committer)
+	return nil
+}
+
 // supportRound: at (h, round) deliver the round's proposal to the live correct nodes still at
 // height h, let the Byzantine validators prevote and precommit every block proposed for this
 // round, and deliver only this round's messages.
@@ -909,6 +1004,15 @@ func (r *simRun) supportRound(h int64, round int32, skip map[int]bool) error {
 	// (several passes: a node may need the votes another node casts only after its own timeout; the
 	// Byzantine validators add nil precommits for the stalled round - once per round - so that +2/3
 	// precommits exist and everybody can leave it)
+	if err := r.pushToRound(h, round, R); err != nil {
+		return err
+	}
+	return r.supportRoundAt(h, round, R)
+}
+
+// pushToRound brings the nodes of R that are still in an earlier round of height h to `round`.
+func (r *simRun) pushToRound(h int64, round int32, R []int) error {
+	s := r.s
 	helped := map[int32]bool{}
 	for pass := 0; pass < 3; pass++ {
 		for _, j := range R {
@@ -940,6 +1044,11 @@ func (r *simRun) supportRound(h int64, round int32, skip map[int]bool) error {
 			}
 		}
 	}
+	return nil
+}
+
+func (r *simRun) supportRoundAt(h int64, round int32, R []int) error {
+	s := r.s
 	prop := s.proposerOf(h, round)
 	if s.nodes[prop].byz {
 		r.byzPropose(prop, h, round)
@@ -1303,7 +1412,7 @@ func simRunCase(rt *rapid.T, mode string, profile string, rec *ev.Rec) {
 	// opening: optionally some synchronous heights, then optionally the scripted adversary first
 	openings := []string{"none", "script", "script", "sync1+script", "sync1", "oldPolka"}
 	if profile == "scripted" {
-		openings = []string{"script", "script", "sync1+script", "oldPolka", "oldPolka", "sync1+oldPolka"}
+		openings = []string{"script", "script", "sync1+script", "oldPolka", "oldPolka", "sync1+oldPolka", "relock", "relock", "sync1+relock"}
 	}
 	opening := rapid.SampledFrom(openings).Draw(rt, "opening")
 	if strings.HasPrefix(opening, "sync1") {
@@ -1314,6 +1423,9 @@ func simRunCase(rt *rapid.T, mode string, profile string, rec *ev.Rec) {
 	}
 	if runErr == nil && strings.HasSuffix(opening, "oldPolka") {
 		runErr = r.oldPolka()
+	}
+	if runErr == nil && strings.HasSuffix(opening, "relock") {
+		runErr = r.relock()
 	}
 	// after the opening script: the adversary also acts as fast-sync peer of the nodes that lag behind
 	if runErr == nil && s.f > 0 && opening != "none" && mode == "C01" {
@@ -1420,6 +1532,12 @@ func simRunCase(rt *rapid.T, mode string, profile string, rec *ev.Rec) {
 	}
 	if r.counts["oldPolka.stuck"] > 0 {
 		labels = append(labels, "oldPolkaStuck")
+	}
+	if r.counts["relock.lockedTwice"] > 0 {
+		labels = append(labels, "relockScript:lockedTwiceAtOneHeight")
+	}
+	if r.counts["relock.restarted"] > 0 {
+		labels = append(labels, "relockScript:restartedAfterSecondLock")
 	}
 	if r.counts["byzBlockResult.rejected"] > 0 {
 		labels = append(labels, "fastSyncBlockRejected")
